@@ -106,3 +106,16 @@ def on_instances(op_strategy, second=1, of=6):
     """The same operation, occasionally issued through a SECOND store instance opened on the same directory
     (two processes / two handles sharing one store): exposes per-instance state that goes stale."""
     return st.tuples(op_strategy, st.integers(0, of - 1)).map(lambda t: dict(t[0], inst=1) if t[1] < second else t[0])
+
+
+def history(op, lo, hi):
+    """A list of operations whose LENGTH is spread over [lo, hi].  st.lists alone draws geometric lengths (mean about
+    lo + 5 whatever hi is: the measured median of a 'up to 30 calls' history was 3); mixing in lists with a higher minimum
+    gives the long histories the properties quantify over while Hypothesis can still shrink within each alternative."""
+    mid, high = max(lo, (lo + hi) // 2), max(lo, (2 * hi) // 3)
+    alts = [st.lists(op, min_size=lo, max_size=hi)]
+    if mid > lo:
+        alts.append(st.lists(op, min_size=mid, max_size=hi))
+    if high > mid:
+        alts.append(st.lists(op, min_size=high, max_size=hi))
+    return st.one_of(*alts)
